@@ -53,7 +53,14 @@ const N_VALUES: usize = 2500; // > one page of u64 (2048) so that compressed vec
 /// (raw formats: creates the holes region), flushes everything and drops the vector.
 fn create<V: VecLike>(db: &Database, forced: bool, version: u32, aux: bool) -> Result<Vec<u128>, String> {
     let r = catch(|| -> vecdb::Result<Vec<u128>> {
-        let mut v = if forced { V::v_forced_import(db, "v", Version::new(version), 0)? } else { V::v_import(db, "v", Version::new(version), 0)? };
+        // both arities of each entry point are exercised: the options form for the large
+        // vectors, the three-argument form for the small ones
+        let mut v = match (forced, aux) {
+            (true, true) => V::v_forced_import(db, "v", Version::new(version), 0)?,
+            (false, true) => V::v_import(db, "v", Version::new(version), 0)?,
+            (true, false) => V::v_forced_import3(db, "v", Version::new(version))?,
+            (false, false) => V::v_import3(db, "v", Version::new(version))?,
+        };
         let n = if aux { N_VALUES } else { 40 };
         for i in 0..n {
             v.v_push(<V::E as Elem>::make(1000 + i as u64));
@@ -75,9 +82,14 @@ fn create<V: VecLike>(db: &Database, forced: bool, version: u32, aux: bool) -> R
     }
 }
 
-fn reopen<V: VecLike>(db: &Database, forced: bool, version: u32) -> Got {
+fn reopen<V: VecLike>(db: &Database, forced: bool, version: u32, with_options: bool) -> Got {
     let r = catch(|| -> vecdb::Result<Got> {
-        let v = if forced { V::v_forced_import(db, "v", Version::new(version), 0)? } else { V::v_import(db, "v", Version::new(version), 0)? };
+        let v = match (forced, with_options) {
+            (true, true) => V::v_forced_import(db, "v", Version::new(version), 0)?,
+            (false, true) => V::v_import(db, "v", Version::new(version), 0)?,
+            (true, false) => V::v_forced_import3(db, "v", Version::new(version))?,
+            (false, false) => V::v_import3(db, "v", Version::new(version))?,
+        };
         Ok(Got::Vec {
             keys: ReadableVec::collect(&v).iter().map(|x| x.key()).collect(),
             holes: v.v_holes(),
@@ -119,15 +131,17 @@ fn usable<V: VecLike>(db: &Database, forced: bool, version: u32, expect_prefix: 
 
 struct Fmt {
     name: &'static str,
+    /// on-disk format (wrappers share the format of what they wrap)
+    disk: &'static str,
     create: fn(&Database, bool, u32, bool) -> Result<Vec<u128>, String>,
-    reopen: fn(&Database, bool, u32) -> Got,
+    reopen: fn(&Database, bool, u32, bool) -> Got,
     usable: fn(&Database, bool, u32, usize) -> Result<(), String>,
     raw: bool,
 }
 
 macro_rules! fmt {
     ($name:expr, $t:ty) => {
-        Fmt { name: $name, create: create::<$t>, reopen: reopen::<$t>, usable: usable::<$t>, raw: <$t as VecLike>::RAW }
+        Fmt { name: $name, disk: $name, create: create::<$t>, reopen: reopen::<$t>, usable: usable::<$t>, raw: <$t as VecLike>::RAW }
     };
 }
 
@@ -138,6 +152,7 @@ fn formats_u64() -> Vec<Fmt> {
         fmt!("Pco", PcoVec<usize, u64>),
         fmt!("LZ4", LZ4Vec<usize, u64>),
         fmt!("Zstd", ZstdVec<usize, u64>),
+        Fmt { name: "Eager<Bytes>", disk: "Bytes", create: create::<vecdb::EagerVec<BytesVec<usize, u64>>>, reopen: reopen::<vecdb::EagerVec<BytesVec<usize, u64>>>, usable: usable::<vecdb::EagerVec<BytesVec<usize, u64>>>, raw: false },
     ]
 }
 
@@ -148,6 +163,7 @@ fn formats_u32() -> Vec<Fmt> {
         fmt!("Pco", PcoVec<usize, u32>),
         fmt!("LZ4", LZ4Vec<usize, u32>),
         fmt!("Zstd", ZstdVec<usize, u32>),
+        Fmt { name: "Eager<Pco>", disk: "Pco", create: create::<vecdb::EagerVec<PcoVec<usize, u32>>>, reopen: reopen::<vecdb::EagerVec<PcoVec<usize, u32>>>, usable: usable::<vecdb::EagerVec<PcoVec<usize, u32>>>, raw: false },
     ]
 }
 
@@ -190,10 +206,10 @@ pub fn check_c14(ctx: &Ctx) -> i32 {
                                         }
                                     };
                                     let before = snapshot(&db);
-                                    let matching = sf.name == rf.name && stored_v == req_v;
-                                    let got = (rf.reopen)(&db, reopen_forced, req_v);
+                                    let matching = sf.disk == rf.disk && stored_v == req_v;
+                                    let got = (rf.reopen)(&db, reopen_forced, req_v, aux);
                                     let after = snapshot(&db);
-                                    let class = if matching { "match" } else if sf.name != rf.name && stored_v != req_v { "both-differ" } else if sf.name != rf.name { "format-differs" } else { "version-differs" };
+                                    let class = if matching { "match" } else if sf.disk != rf.disk && stored_v != req_v { "both-differ" } else if sf.disk != rf.disk { "format-differs" } else { "version-differs" };
                                     stats.bump(&format!("cell:{class}:{}", entry(reopen_forced)));
                                     if samples.len() < 4 && cells % 97 == 5 {
                                         samples.push(json!({"cell": cell, "outcome": format!("{:?}", match &got { Got::Vec { len, holes, .. } => format!("Ok(len={len}, holes={})", holes.len()), Got::Err(e) => format!("Err({e})"), Got::Panic(p) => format!("panic {p}") })}));
@@ -202,7 +218,7 @@ pub fn check_c14(ctx: &Ctx) -> i32 {
                                     let verdict: Option<(String, String)> = match (&got, matching, reopen_forced) {
                                         (Got::Panic(_), _, _) => Some(bad("import panicked")),
                                         (Got::Vec { keys: k, holes, stamp, .. }, true, _) => {
-                                            let want_holes: Vec<usize> = if aux && sf.raw { vec![3, N_VALUES - 1] } else { vec![] };
+                                            let want_holes: Vec<usize> = if aux && sf.raw && rf.raw { vec![3, N_VALUES - 1] } else { vec![] }; // wrappers do not expose deleted slots
                                             if *k != keys || *holes != want_holes || *stamp != 7 {
                                                 Some(bad("matching import returned other contents than were stored"))
                                             } else if after != before {
@@ -238,7 +254,7 @@ pub fn check_c14(ctx: &Ctx) -> i32 {
                                     // continuation: the re-opened vector works (for refused plain imports:
                                     // the stored vector still works through its own format)
                                     let cont = match (&got, matching || reopen_forced) {
-                                        (Got::Vec { len, holes, .. }, true) => (rf.usable)(&db, reopen_forced, req_v, *len - holes.len()),
+                                        (Got::Vec { keys: k, .. }, true) => (rf.usable)(&db, reopen_forced, req_v, k.len()),
                                         _ => (sf.usable)(&db, create_forced, stored_v, keys.len()),
                                     };
                                     if let Err(e) = cont {
@@ -269,8 +285,8 @@ pub fn check_c14(ctx: &Ctx) -> i32 {
                             continue;
                         }
                     };
-                    let g2 = (f2.reopen)(&db, true, 1);
-                    let same12 = f1.name == f2.name;
+                    let g2 = (f2.reopen)(&db, true, 1, true);
+                    let same12 = f1.disk == f2.disk;
                     let ok2 = match &g2 {
                         Got::Vec { keys, len, holes, .. } => if same12 { *keys == keys1 } else { keys.is_empty() && *len == 0 && holes.is_empty() },
                         _ => false,
@@ -287,8 +303,8 @@ pub fn check_c14(ctx: &Ctx) -> i32 {
                         }
                         2
                     };
-                    let g3 = (f3.reopen)(&db, true, 1);
-                    let same23 = f2.name == f3.name;
+                    let g3 = (f3.reopen)(&db, true, 1, false);
+                    let same23 = f2.disk == f3.disk;
                     let ok3 = match &g3 {
                         Got::Vec { keys, len, holes, .. } => if same23 { keys.len() == stored2 } else { keys.is_empty() && *len == 0 && holes.is_empty() },
                         _ => false,
@@ -329,8 +345,9 @@ pub fn check_c14(ctx: &Ctx) -> i32 {
                         _ => region.write_at(&[0xEE], 20).unwrap(),
                     }
                     db.flush().unwrap();
+                    drop(region); // a live handle would make a (wrongful) discard fail and hide it
                     let before = snapshot(&db);
-                    let got = (f.reopen)(&db, forced, 1);
+                    let got = (f.reopen)(&db, forced, 1, case != "short-region");
                     let after = snapshot(&db);
                     let verdict = match (case, &got) {
                         (_, Got::Panic(p)) => Some(format!("import panicked: {p}")),
